@@ -176,6 +176,31 @@ fn static_checks<G: CurveTag>(col: &mut Collector, count: usize) -> Vec<Failure>
         }
         col.nontrivial(fp_of(&(G::CURVE, name)));
     }
+    // many parties: the party index is a 32-bit quantity in the derivation
+    let (wide_parties, wide_n) = if count > 64 { (66000usize, 1usize) } else { (300usize, 2usize) };
+    let wide = BulletproofGens::<G>::new(wide_n, wide_parties);
+    let wg: Vec<G> = wide.G(wide_n, wide_parties).cloned().collect();
+    let wh: Vec<G> = wide.H(wide_n, wide_parties).cloned().collect();
+    let mut seen_wide: HashSet<Vec<u8>> = HashSet::new();
+    for j in 0..wide_parties {
+        col.eval();
+        let eg = refgens::gens_uncached::<G>(b'G', j as u32, wide_n);
+        let eh = refgens::gens_uncached::<G>(b'H', j as u32, wide_n);
+        if wg[j * wide_n..(j + 1) * wide_n] != eg[..] || wh[j * wide_n..(j + 1) * wide_n] != eh[..] {
+            out.push(Failure::new("C12:many-parties-value", format!("generators of party {} (of {}) differ from the history-free derivation", j, wide_parties), what(&format!("party {}", j))));
+            break;
+        }
+        for p in wg[j * wide_n..(j + 1) * wide_n].iter().chain(wh[j * wide_n..(j + 1) * wide_n].iter()) {
+            if !seen_wide.insert(enc(p)) {
+                out.push(Failure::new("C12:many-parties-duplicate", format!("a generator of party {} repeats a generator of an earlier party", j), what(&format!("party {}", j))));
+                break;
+            }
+        }
+        if j >= 256 {
+            col.nontrivial(fp_of(&(G::CURVE, "wide", j)));
+        }
+    }
+    col.class("many-parties");
     // Pedersen bases as documented
     let (b, bb) = refgens::pedersen::<G>();
     if pc.B != b || pc.B != G::generator() {
